@@ -132,7 +132,8 @@ def record(rng, lut_name):
     base = dict(channel_width=20.0, flow_rate=0.04, px_um=0.0,
                 lut_data=lut_name)
     law = rng.choice(["double-visc", "double-flow", "rescale", "split",
-                      "temperature-array", "repeat"])
+                      "temperature-array", "repeat", "pixelation",
+                      "pixelation-split"])
 
     def call(d, x, **kw):
         k = dict(base)
@@ -169,6 +170,20 @@ def record(rng, lut_name):
                 kw = dict(medium="CellCarrier", visc_model="buyukurganci-2022")
                 a = call(defo, x, temperature=23.5, **kw)
                 b = call(defo, x, temperature=np.full(n, 23.5), **kw)
+            elif law == "pixelation":
+                # the documented pixelation correction: the deformation is
+                # reduced by the published delta before the look-up
+                from dclab.features.emodulus import pxcorr
+                delta = pxcorr.get_pixelation_delta(
+                    feat_corr="deform", feat_absc="volume" if is3d
+                    else "area_um", data_absc=x.copy(), px_um=0.34)
+                a = call(defo, x, **dict(num, px_um=0.34))
+                b = call(defo - delta, x, **num)
+            elif law == "pixelation-split":
+                a = call(defo, x, **dict(num, px_um=0.34))
+                b = np.concatenate(
+                    [call(defo[:5], x[:5], **dict(num, px_um=0.34)),
+                     call(defo[5:], x[5:], **dict(num, px_um=0.34))])
             else:
                 a = call(defo, x, **num)
                 b = call(defo, x, **num)
@@ -226,7 +241,7 @@ def main(tier, seed, replay=None):
         rng = random.Random(seed * 389 + 5)
         luts = ["LE-2D-FEM-19", "HE-2D-FEM-22", "HE-3D-FEM-22"]
         jobs = [(random.Random(rng.randrange(2**31)), luts[i % 3])
-                for i in range(9 if q else 90)]
+                for i in range(24 if q else 240)]
         recs = par.pmap(lambda j: record(j[0], j[1]), jobs, chunk=1)
         res2, okset, rej = tracecheck.validate("EmodulusTrace", TRACE, recs,
                                                workers=2)
